@@ -384,6 +384,30 @@ func ruleC15R3(r *Run) {
 			}
 		}
 	}
+	// a draw does not hand out the generator's own container: a value method whose result is a slice or map (by its
+	// static type, or the core type of its type parameter) returns storage of this call, not data loaded from a
+	// generator field — the caller may modify what it drew, and every later draw (the reproduction, each shrink
+	// attempt, the final replay, other checks) would read the modified table
+	nOut := 0
+	for _, fn := range p.FuncList {
+		name := p.fnName(fn)
+		if !strings.HasSuffix(name, ").value") || fn.Signature.Recv() == nil || fn.Signature.Results().Len() != 1 || !gts[recvTypeName(fn)] {
+			continue
+		}
+		if !containerType(fn.Signature.Results().At(0).Type()) {
+			continue
+		}
+		nOut++
+		for _, ret := range returnsOf(fn) {
+			for _, a := range p.alternatives(p.res(ret, 0), 0) {
+				if src, ok := shared(a.Val); ok {
+					bad++
+					r.Fail(name+"#hands-out-shared", ret.Pos(), name+" can return "+p.expr(a.Val)+", data loaded from "+src+", as the drawn value: a property that modifies what it drew changes the generator for every later draw (reproduction, shrinking, final replay, concurrently running checks)")
+				}
+			}
+		}
+	}
+	r.Floor("value methods returning a slice or map", nOut, 1)
 	r.Floor("store-like instructions in the value/String closure", n, 20)
 	if bad == 0 {
 		r.OK("census", token.NoPos, fmt.Sprintf("%d element/field/map stores, copies and sorts in %d functions reachable from value/String: none targets data loaded from a generator field or a package-level variable", n, len(cl)))
@@ -843,4 +867,53 @@ func (p *Program) writesThroughPtr(v ssa.Value, d int, seen map[ssa.Value]bool) 
 		}
 	}
 	return "", true
+}
+
+// recvTypeName is the name of the (pointer) receiver's named type.
+func recvTypeName(fn *ssa.Function) string {
+	t := fn.Signature.Recv().Type()
+	if pt, ok := t.(*types.Pointer); ok {
+		t = pt.Elem()
+	}
+	if nt, ok := t.(*types.Named); ok {
+		return nt.Obj().Name()
+	}
+	return ""
+}
+
+// containerType: t is a slice or map type, or a type parameter all of whose constraint terms are.
+func containerType(t types.Type) bool {
+	switch u := t.Underlying().(type) {
+	case *types.Slice, *types.Map:
+		return true
+	case *types.Interface:
+		tp, ok := t.(*types.TypeParam)
+		if !ok {
+			return false
+		}
+		_ = tp
+		n, all := 0, true
+		for i := 0; i < u.NumEmbeddeds(); i++ {
+			switch e := u.EmbeddedType(i).(type) {
+			case *types.Union:
+				for k := 0; k < e.Len(); k++ {
+					n++
+					switch e.Term(k).Type().Underlying().(type) {
+					case *types.Slice, *types.Map:
+					default:
+						all = false
+					}
+				}
+			default:
+				n++
+				switch e.Underlying().(type) {
+				case *types.Slice, *types.Map:
+				default:
+					all = false
+				}
+			}
+		}
+		return n > 0 && all
+	}
+	return false
 }
